@@ -114,7 +114,8 @@ pub enum Got {
     Disc,
 }
 
-/// receiver program: R recv, Y try_recv, T recv_timeout(1ms); then `drain`: recv until disconnected
+/// receiver program: R recv, Y try_recv, T recv_timeout(1ms), U recv_timeout(1ms) followed by recv if it timed out;
+/// then `drain`: recv until disconnected
 fn receive<C: Chan>(e: &'static Engine, rx: &C::Rx, ops: &str, drain: bool) -> Vec<Got> {
     let mut got = vec![];
     let mut disconnected = false;
@@ -138,7 +139,7 @@ fn receive<C: Chan>(e: &'static Engine, rx: &C::Rx, ops: &str, drain: bool) -> V
                 }
                 Err(false) => got.push(Got::Empty),
             },
-            'T' => {
+            'T' | 'U' => {
                 let t0 = e.now();
                 match C::recv_timeout(rx, Duration::from_millis(1)) {
                     Ok(v) => got.push(Got::V(v.id())),
@@ -146,7 +147,18 @@ fn receive<C: Chan>(e: &'static Engine, rx: &C::Rx, ops: &str, drain: bool) -> V
                         got.push(Got::Disc);
                         disconnected = true;
                     }
-                    Err(false) => got.push(Got::Timeout(e.now() - t0)),
+                    Err(false) => {
+                        got.push(Got::Timeout(e.now() - t0));
+                        if o == 'U' {
+                            match C::recv(rx) {
+                                Ok(v) => got.push(Got::V(v.id())),
+                                Err(()) => {
+                                    got.push(Got::Disc);
+                                    disconnected = true;
+                                }
+                            }
+                        }
+                    }
                 }
             }
             _ => unreachable!(),
@@ -169,8 +181,10 @@ fn receive<C: Chan>(e: &'static Engine, rx: &C::Rx, ops: &str, drain: bool) -> V
 /// senders: (kind, messages); receivers: (kind, ops). The last sender handle is dropped by its owner
 /// after its last send; every receiver finally drains until Disconnected.
 #[allow(clippy::too_many_arguments)]
+/// Sender kinds 't' / 'c' are a thread / a coroutine that sleeps 1 ms before its first send, so that the send meets the
+/// expiry of a receiver's recv_timeout(1 ms).
 fn deliver<C: Chan>(e: &'static Engine, workers: usize, senders: &'static [(char, usize)], receivers: &'static [(char, &'static str)], prequeued: usize, main_holds_tx: bool) {
-    let any_co = senders.iter().any(|s| s.0 == 'C') || receivers.iter().any(|r| r.0 == 'C');
+    let any_co = senders.iter().any(|s| s.0 == 'C' || s.0 == 'c') || receivers.iter().any(|r| r.0 == 'C');
     if any_co {
         rt_init(workers);
     }
@@ -231,7 +245,15 @@ fn deliver<C: Chan>(e: &'static Engine, workers: usize, senders: &'static [(char
             for j in 0..n {
                 sent.push((s * 10 + j + 1) as u32);
             }
-            hs.push(spawn_part(e, *k, move || {
+            let delayed = k.is_lowercase();
+            hs.push(spawn_part(e, k.to_ascii_uppercase(), move || {
+                if delayed {
+                    if may::coroutine::is_coroutine() {
+                        may::coroutine::sleep(Duration::from_millis(1));
+                    } else {
+                        e.vsleep(1_000_000);
+                    }
+                }
                 for j in 0..n {
                     let id = (s * 10 + j + 1) as u32;
                     if C::send(&tx, Tracked::new(id)).is_err() {
@@ -412,7 +434,15 @@ fn deliver_hold<C: Chan>(e: &'static Engine, workers: usize, senders: &'static [
             sent.push((s * 10 + j + 1) as u32);
         }
         let done = done.clone();
-        hs.push(spawn_part(e, *k, move || {
+        let delayed = k.is_lowercase();
+        hs.push(spawn_part(e, k.to_ascii_uppercase(), move || {
+            if delayed {
+                if may::coroutine::is_coroutine() {
+                    may::coroutine::sleep(Duration::from_millis(1));
+                } else {
+                    e.vsleep(1_000_000);
+                }
+            }
             for j in 0..n {
                 let id = (s * 10 + j + 1) as u32;
                 if C::send(&tx, Tracked::new(id)).is_err() {
@@ -457,11 +487,16 @@ fn mk_hold<C: Chan>(workers: usize, senders: &'static [(char, usize)], receivers
         receivers.iter().map(|(k, o)| format!("{}{}", k, o)).collect::<Vec<_>>().join("_"),
         workers
     );
-    Scenario::new("C06", C::KIND, name, Arc::new(move |e| deliver_hold::<C>(e, workers, senders, receivers)))
+    let s = Scenario::new("C06", C::KIND, name, Arc::new(move |e| deliver_hold::<C>(e, workers, senders, receivers)));
+    if receivers.iter().any(|r| r.1.contains('T') || r.1.contains('U')) {
+        s.t2()
+    } else {
+        s
+    }
 }
 
 fn mk_deliver<C: Chan>(workers: usize, senders: &'static [(char, usize)], receivers: &'static [(char, &'static str)], prequeued: usize, main_holds_tx: bool, prop: &'static str) -> Scenario {
-    let any_co = senders.iter().any(|s| s.0 == 'C') || receivers.iter().any(|r| r.0 == 'C');
+    let any_co = senders.iter().any(|s| s.0 == 'C' || s.0 == 'c') || receivers.iter().any(|r| r.0 == 'C');
     let name = format!(
         "{}.tx{}.rx{}{}{}{}",
         C::KIND,
@@ -473,7 +508,7 @@ fn mk_deliver<C: Chan>(workers: usize, senders: &'static [(char, usize)], receiv
     );
     let s = Scenario::new(prop, C::KIND, name, Arc::new(move |e| deliver::<C>(e, workers, senders, receivers, prequeued, main_holds_tx)));
     let s = if any_co { s } else { s.fine() };
-    if receivers.iter().any(|r| r.1.contains('T')) {
+    if receivers.iter().any(|r| r.1.contains('T') || r.1.contains('U')) {
         s.t2()
     } else {
         s
@@ -526,6 +561,26 @@ pub fn build_c06(quick: bool) -> Vec<Scenario> {
         v.push(mk_hold::<Spsc>(w, &[('C', 3)], &[('C', "RRR")]));
         v.push(mk_hold::<Mpsc>(w, &[('C', 1), ('T', 1)], &[('C', "RR")]));
         v.push(mk_hold::<Mpmc>(w, &[('C', 2)], &[('C', "R"), ('C', "R")]));
+        // the send meets the expiry of recv_timeout and the Sender stays alive: a permit lost in that race is never replaced
+        v.push(mk_hold::<Mpmc>(w, &[('t', 1)], &[('T', "U")]));
+        v.push(mk_hold::<Mpmc>(w, &[('t', 1)], &[('C', "U")]));
+        v.push(mk_hold::<Mpmc>(w, &[('c', 1)], &[('C', "U")]));
+        v.push(mk_hold::<Mpsc>(w, &[('t', 1)], &[('C', "U")]));
+        v.push(mk_hold::<Mpsc>(w, &[('c', 1)], &[('T', "U")]));
+    }
+    // the send meets the expiry of the receiver's recv_timeout: the value is delivered by that call or by the next one
+    for s in [mk_deliver::<Mpmc>(1, &[('t', 1)], &[('T', "T")], 0, false, p), mk_deliver::<Mpsc>(1, &[('t', 1)], &[('T', "T")], 0, false, p)] {
+        // and with the sender ahead of the receiver in the default schedule
+        let mut d = s.clone().desc();
+        d.name = format!("{}.tx_first", d.name);
+        v.push(s);
+        v.push(d);
+    }
+    for w in [1usize, 2] {
+        v.push(mk_deliver::<Mpmc>(w, &[('t', 1)], &[('C', "T")], 0, true, p));
+        v.push(mk_deliver::<Mpmc>(w, &[('c', 1)], &[('T', "T"), ('C', "R")], 0, false, p));
+        v.push(mk_deliver::<Mpsc>(w, &[('t', 1)], &[('C', "T")], 0, true, p));
+        v.push(mk_deliver::<Spsc>(w, &[('c', 1)], &[('C', "R")], 0, false, p));
     }
     if !quick {
         v.push(mk_deliver::<Mpsc>(2, &[('C', 2), ('C', 2)], &[('C', "RRRR")], 0, false, p));
